@@ -91,6 +91,9 @@ impl CidStore<RawValue> {
     pub fn verify_raw_value(&self) -> Result<(), CidStoreVerificationError> {
         for (cid, value) in &self.0 {
             verify_raw_value(cid, value.as_inner())?;
+            // raw values are parsed lazily during execution; malformed JSON must be rejected here
+            serde_json::from_str::<serde::de::IgnoredAny>(value.as_inner())
+                .map_err(CidVerificationError::from)?;
         }
         Ok(())
     }
